@@ -1502,9 +1502,12 @@ func toFilterMap(
 				if t.Index < len(mapping.ChildMappings) {
 					innerMapping = mapping.ChildMappings[t.Index]
 				}
-			} else {
+			} else if strings.HasPrefix(innerSourceKey, "_") {
 				innerMapping = mapping
 			}
+			// Any other key below a property names something inside the value of that property
+			// (e.g. `{_alias: {total: {k: 1}}}`): it must never be resolved against the fields of
+			// the host, whose index would then be applied to the property's value.
 		case *ObjectProperty:
 			// Object properties can never refer to mapped document fields.
 			// Set the mapping to null for any nested filter values so
